@@ -708,11 +708,12 @@ pub fn agree(fields: &[&str]) -> String
 			let a: VT = a;
 			let bit = |v: bool| if v { "1" } else { "0" };
 			format!(
-				"declared={} conc={} coerce={} coerceaddr={}",
+				"declared={} conc={} coerce={} coerceaddr={} autoderef={}",
 				bit(a.can_be_declared_as(&b)),
 				bit(a.can_be_concretization_of(&b)),
 				bit(a.can_coerce_into(&b)),
-				bit(a.can_coerce_address_into(&b))
+				bit(a.can_coerce_address_into(&b)),
+				bit(a.can_autoderef_into(&b))
 			)
 		}
 		_ => "bad-request".into(),
